@@ -4,7 +4,7 @@ followed by a flush, run against the same script with the `Pending` outcomes era
 namespace FV
 
 /-- outcome of one `poll_write` / `poll_flush` call -/
-inductive AEv | pending | ok (n : Nat) | err
+inductive AEv | pending | ok (n : Nat) | err (k : Nat)
 deriving Repr, DecidableEq
 
 structure AState where
@@ -13,7 +13,7 @@ structure AState where
   poisoned : Bool
 deriving Repr, DecidableEq
 
-inductive APoll | pending | done | brokenPipe | err | flushErr | blocked
+inductive APoll | pending | done | brokenPipe | err (k : Nat) | flushErr (k : Nat) | blocked
 deriving Repr, DecidableEq
 
 /-- one call of `WriteAll::poll`: loops over `poll_write` until `Pending`, an error, or completion; then `poll_flush` -/
@@ -25,7 +25,7 @@ def apoll (msg : Bytes) : List AEv → AState → APoll × AState × List AEv
       | [] => (.blocked, st, [])
       | .pending :: evs' => (.pending, st, evs')
       | .ok _ :: evs' => (.done, st, evs')
-      | .err :: evs' => (.flushErr, st, evs')
+      | .err k :: evs' => (.flushErr k, st, evs')
     else match evs with
       | [] => (.blocked, st, [])
       | .pending :: evs' => (.pending, st, evs')
@@ -34,7 +34,7 @@ def apoll (msg : Bytes) : List AEv → AState → APoll × AState × List AEv
         else
           let k := min n (msg.length - st.pos)
           apoll msg evs' { st with pos := st.pos + k, sink := st.sink ++ (msg.drop st.pos).take k }
-      | .err :: evs' => (.err, { st with poisoned := st.pos ≠ 0 }, evs')
+      | .err k :: evs' => (.err k, { st with poisoned := st.pos ≠ 0 }, evs')
 
 /-- the executor: poll again after every `Pending` (the pipe has registered the waker and made progress) -/
 def arun (msg : Bytes) : List AEv → AState → APoll × AState × List AEv
@@ -56,7 +56,7 @@ def brun (msg : Bytes) : List AEv → AState → APoll × AState × List AEv
       | [] => (.blocked, st, [])
       | .pending :: evs' => brun msg evs' st          -- never present after erasure
       | .ok _ :: evs' => (.done, st, evs')
-      | .err :: evs' => (.flushErr, st, evs')
+      | .err k :: evs' => (.flushErr k, st, evs')
     else match evs with
       | [] => (.blocked, st, [])
       | .pending :: evs' => brun msg evs' st
@@ -65,7 +65,7 @@ def brun (msg : Bytes) : List AEv → AState → APoll × AState × List AEv
         else
           let k := min n (msg.length - st.pos)
           brun msg evs' { st with pos := st.pos + k, sink := st.sink ++ (msg.drop st.pos).take k }
-      | .err :: evs' => (.err, { st with poisoned := st.pos ≠ 0 }, evs')
+      | .err k :: evs' => (.err k, { st with poisoned := st.pos ≠ 0 }, evs')
 
 theorem apoll_consumes (msg : Bytes) : ∀ (evs : List AEv) (st : AState),
     (apoll msg evs st).2.2.length ≤ evs.length ∧
@@ -80,7 +80,7 @@ theorem apoll_consumes (msg : Bytes) : ∀ (evs : List AEv) (st : AState),
     · cases ev <;> simp
     · cases ev with
       | pending => simp
-      | err => simp
+      | err k => simp
       | ok n =>
         simp only
         split
@@ -113,9 +113,9 @@ theorem apoll_brun (msg : Bytes) : ∀ (evs : List AEv) (st : AState),
         have ha : apoll msg (AEv.ok n :: evs) st = (.done, st, evs) := by unfold apoll; simp [hdone]
         have hb : brun msg (AEv.ok n :: evs) st = (.done, st, evs) := by unfold brun; simp [hdone]
         simp [ha, hb]
-      | err =>
-        have ha : apoll msg (AEv.err :: evs) st = (.flushErr, st, evs) := by unfold apoll; simp [hdone]
-        have hb : brun msg (AEv.err :: evs) st = (.flushErr, st, evs) := by unfold brun; simp [hdone]
+      | err k =>
+        have ha : apoll msg (AEv.err k :: evs) st = (.flushErr k, st, evs) := by unfold apoll; simp [hdone]
+        have hb : brun msg (AEv.err k :: evs) st = (.flushErr k, st, evs) := by unfold brun; simp [hdone]
         simp [ha, hb]
     · cases ev with
       | pending =>
@@ -124,9 +124,9 @@ theorem apoll_brun (msg : Bytes) : ∀ (evs : List AEv) (st : AState),
           conv => lhs; unfold brun
           simp [hdone]
         simp [ha, hb]
-      | err =>
-        have ha : apoll msg (AEv.err :: evs) st = (.err, { st with poisoned := st.pos ≠ 0 }, evs) := by unfold apoll; simp [hdone]
-        have hb : brun msg (AEv.err :: evs) st = (.err, { st with poisoned := st.pos ≠ 0 }, evs) := by unfold brun; simp [hdone]
+      | err k =>
+        have ha : apoll msg (AEv.err k :: evs) st = (.err k, { st with poisoned := st.pos ≠ 0 }, evs) := by unfold apoll; simp [hdone]
+        have hb : brun msg (AEv.err k :: evs) st = (.err k, { st with poisoned := st.pos ≠ 0 }, evs) := by unfold brun; simp [hdone]
         simp [ha, hb]
       | ok n =>
         by_cases hn : n = 0
@@ -180,8 +180,8 @@ theorem arun_eq_brun (msg : Bytes) : ∀ (n : Nat) (evs : List AEv) (st : AState
           exact (hb.1 rfl).symm
         | done => simp only; exact (hb.2 (by simp)).symm
         | brokenPipe => simp only; exact (hb.2 (by simp)).symm
-        | err => simp only; exact (hb.2 (by simp)).symm
-        | flushErr => simp only; exact (hb.2 (by simp)).symm
+        | err k => simp only; exact (hb.2 (by simp)).symm
+        | flushErr k => simp only; exact (hb.2 (by simp)).symm
         | blocked => simp only; exact (hb.2 (by simp)).symm
 end FV
 #print axioms FV.arun_eq_brun
